@@ -361,11 +361,65 @@ func selectSetForRecursion(ctx context.Context, scope *ReferenceScope, view *Vie
 	return selectSetForRecursion(ctx, scope, view, set, forUpdate)
 }
 
+// lockTablesForUpdate opens the table files that a data-changing statement is going to load for
+// update, before any query of the statement is evaluated. A query of the WITH clause or a sub-query
+// of the FROM clause that reads one of these tables would otherwise read it under a read lock that is
+// released again, and the statement would write values computed from that read over the changes
+// another process committed before the update lock was taken.
+// Names that refer to an inline table of the WITH clause or to a temporary table, and table objects
+// whose path has to be evaluated are left to LoadView.
+func lockTablesForUpdate(ctx context.Context, scope *ReferenceScope, withClause parser.QueryExpression, tables []parser.QueryExpression) error {
+	inlineTables := make(map[string]bool)
+	if clause, ok := withClause.(parser.WithClause); ok {
+		for _, v := range clause.InlineTables {
+			if inlineTable, ok := v.(parser.InlineTable); ok {
+				inlineTables[strings.ToUpper(inlineTable.Name.Literal)] = true
+			}
+		}
+	}
+
+	var lock func(expr parser.QueryExpression) error
+	lock = func(expr parser.QueryExpression) error {
+		switch e := expr.(type) {
+		case parser.Parentheses:
+			return lock(e.Expr)
+		case parser.Table:
+			switch obj := e.Object.(type) {
+			case parser.Join:
+				if err := lock(obj.Table); err != nil {
+					return err
+				}
+				return lock(obj.JoinTable)
+			case parser.Identifier:
+				if inlineTables[strings.ToUpper(obj.Literal)] || scope.InlineTableExists(obj) || scope.TemporaryTableExists(obj.Literal) {
+					return nil
+				}
+				options := scope.Tx.Flags.ImportOptions.Copy()
+				options.Format = option.AutoSelect
+				_, err := cacheViewFromFile(ctx, scope, obj, true, options)
+				return err
+			}
+		}
+		return nil
+	}
+
+	for _, table := range tables {
+		if err := lock(table); err != nil {
+			return err
+		}
+	}
+	return nil
+}
+
 func Insert(ctx context.Context, scope *ReferenceScope, query parser.InsertQuery) (*FileInfo, int, error) {
 	queryScope := scope.CreateNode()
 	defer queryScope.CloseCurrentNode()
 
 	var insertRecords int
+
+	if err := lockTablesForUpdate(ctx, queryScope, query.WithClause, []parser.QueryExpression{query.Table}); err != nil {
+		return nil, insertRecords, err
+	}
 
 	if query.WithClause != nil {
 		if err := queryScope.LoadInlineTable(ctx, query.WithClause.(parser.WithClause)); err != nil {
@@ -420,14 +474,18 @@ func Update(ctx context.Context, scope *ReferenceScope, query parser.UpdateQuery
 	queryScope := scope.CreateNode()
 	defer queryScope.CloseCurrentNode()
 
+	if query.FromClause == nil {
+		query.FromClause = parser.FromClause{Tables: query.Tables}
+	}
+
+	if err := lockTablesForUpdate(ctx, queryScope, query.WithClause, query.FromClause.(parser.FromClause).Tables); err != nil {
+		return nil, nil, err
+	}
+
 	if query.WithClause != nil {
 		if err := queryScope.LoadInlineTable(ctx, query.WithClause.(parser.WithClause)); err != nil {
 			return nil, nil, err
 		}
-	}
-
-	if query.FromClause == nil {
-		query.FromClause = parser.FromClause{Tables: query.Tables}
 	}
 
 	queryScope.Tx.operationMutex.Lock()
@@ -566,6 +624,10 @@ func Replace(ctx context.Context, scope *ReferenceScope, query parser.ReplaceQue
 
 	var replaceRecords int
 
+	if err := lockTablesForUpdate(ctx, queryScope, query.WithClause, []parser.QueryExpression{query.Table}); err != nil {
+		return nil, replaceRecords, err
+	}
+
 	if query.WithClause != nil {
 		if err := queryScope.LoadInlineTable(ctx, query.WithClause.(parser.WithClause)); err != nil {
 			return nil, replaceRecords, err
@@ -618,6 +680,10 @@ func Replace(ctx context.Context, scope *ReferenceScope, query parser.ReplaceQue
 func Delete(ctx context.Context, scope *ReferenceScope, query parser.DeleteQuery) ([]*FileInfo, []int, error) {
 	queryScope := scope.CreateNode()
 	defer queryScope.CloseCurrentNode()
+
+	if err := lockTablesForUpdate(ctx, queryScope, query.WithClause, query.FromClause.Tables); err != nil {
+		return nil, nil, err
+	}
 
 	if query.WithClause != nil {
 		if err := queryScope.LoadInlineTable(ctx, query.WithClause.(parser.WithClause)); err != nil {
